@@ -11,6 +11,7 @@ package main
 //	32 Compute: after the Lock                            (W2)
 //	33 Compute: before the newer-table check              (W3)
 //	34 Compute: after both checks                         (W4)
+//	43 Compute: after the Unlock of an insert / delete    (Wadd: the size counter not yet adjusted)
 //	35 resize: before the CAS on the resizing flag        (R0)
 //	36 resize: before the copy                            (R1, nothing copied)
 //	37 resize: before a source bucket of the copy         (R1; only buckets some thread's key lives in)
